@@ -5,7 +5,7 @@ NOT_APPLICABLE = {
            "threads or multiprocessing symbolically, and a sequential stub would decide one schedule only (DESIGN §4 C13)",
 }
 ENGINES = [
-    {"name": "pysym", "path": "vf/pysym", "serves_properties": ["C17"],
+    {"name": "pysym", "path": "vf/pysym", "serves_properties": ["C17", "C07"],
      "kind_free_text": "bounded path-forking symbolic interpreter over the AST of the real py7zr sources (re-parsed "
                        "from /repo on every run), z3 bit-vectors / integers / ropes; solver verdict per path"},
 ]
@@ -14,6 +14,19 @@ NOTES = ("Exit codes: 0 all obligations HOLD within their bounds; 1 a replayed v
          "bounds, stubs and assumptions are in evidence/<id>.json.")
 B = "B: vf/pysym (AST symbolic interpreter + z3)"
 CHECKS = {
+    "C07": dict(engine=B, ref="DESIGN.md §4 C07",
+                technique="bounded symbolic execution of the real write path (writestr/write/close, Header.write, SignatureHeader) "
+                          "from the AST with a codec-contract stub; output parsed by an independent reference reader interpreted "
+                          "on the same symbolic bytes; z3 decides path∧¬post",
+                text="For create sessions of up to 3 (5 thorough) members of kinds writestr/file/directory/symlink and 1-3 coder "
+                     "stages, with every member size, packed size, CRC and timestamp symbolic, the header bytes the real writer "
+                     "emits are accepted by a reader written from the format text, carry the names/flags/sizes/CRCs that were "
+                     "written, every declared property size equals the bytes that follow, packed sizes tile the data area and "
+                     "the signature header's offset/size/CRCs describe the bytes on disk. The primitive codecs (lemma L0) are "
+                     "re-proved over their full domains.",
+                note="codec libraries replaced by a contract stub; NUMBER fields summarised as tokens justified by L0; CRC32 "
+                     "collision-free abstraction; member count/kinds enumerated as stated bounds; an independent reader "
+                     "*decoding* real payloads and 7zAES key derivation are outside"),
     "C17": dict(engine=B, ref="DESIGN.md §4 C17",
                 technique="bounded symbolic execution of the real primitives from their AST; z3 decides path∧¬post on every path",
                 text="For the NUMBER codec the value ranges over the whole 0..2^64-1 domain (and every 9-byte string for the "
